@@ -13,4 +13,4 @@ C07 = ['C07_exact_copy_position_independent_partial', 'C07_hash_join_position_in
 C10 = ['C10_total_for_valid_oracle', 'C10_match_total', 'C10_ranges_in_bounds', 'C10_offsets_bounded', 'C10_reader_total']
 C11 = ['C11_for_checked_tables', 'C11_restricted', 'C11_retokenize_normalized', 'C11_raw_vs_norm', 'C11_raw_tokens_well_formed', 'C11_raw_words_partial', 'C11_lines_monotone_partial']
 C17 = ['C17_offsets_reproduce_text', 'C17_tokens_ordered', 'C17_tokens_cover_non_space', 'C17_candidates_well_formed', 'C17_candidates_ordered', 'C17_target_range_inside_text', 'C17_original_refuted']
-C13 = ['C13_exact_occurrence_span', 'C13_reported_spans_inside_text']
+C13 = ['C13_occurrence_ending_inside_a_token', 'C13_exact_occurrence_span', 'C13_reported_spans_inside_text']
